@@ -188,6 +188,19 @@ CHECKS = {
         note="2..8 splits per level with unaligned per-split limits of 2..11 blocks; 'Insufficient parity space' refusals are trivial "
              "cases; alpha scan order and untrusted inodes keep the twins' allocation identical.",
         design="DESIGN.md section 4, C17"),
+    "C18": dict(
+        category="exploration",
+        technique="property-based testing (Hypothesis): generated rule lists and colliding trees judged by a reference evaluator written from the manual; generated selection options on arrays with missing files",
+        engine="hypothesis-cli",
+        text="Rule lists (0..8 mixed include/exclude; FILE, DIR/, /PATH/FILE, /PATH/DIR/; * ? [] and escapes) over trees whose names "
+             "collide with the patterns (glob characters, leading dots, spaces, newlines), with nohidden and content copies on data "
+             "disks: after sync, list must equal the set the reference evaluator (lib/filterref.py, from manual sections 7.7 and 8) "
+             "includes; configurations with a documented-invalid pattern must be rejected by every command; the tool's own files never "
+             "enter the array. Selections: fix with generated -f/-d/-m on arrays with recoverable missing files restores exactly the "
+             "selected missing files and leaves everything else byte-identical.",
+        note="Paths where 'first match decides' and 'an excluded directory takes everything below' disagree are counted as ambiguous "
+             "and not asserted; empty-directory inclusion and the -e selection are not asserted here (-e is exercised in C05/C12/C15).",
+        design="DESIGN.md section 4, C18"),
 }
 
 NOT_YET = "check not built yet at this commit (planned in DESIGN.md section 4); not claimed until it runs"
